@@ -394,6 +394,23 @@ def report_lsp_shift(ctx, shift):
     """verdicts of the end-to-end LSP layout-edit scenarios: one violation per (kind, rule, kind of edit), the best
     witnesses first (minimised, reproducible on a fresh cache with the one edit, small), at most LSP_MAX_REPORTED: a
     change that breaks the server's bookkeeping wholesale shows in every rule and every edit"""
+    seen_mode = set()
+    for ws in shift:
+        for it in ws.get('mode_issues') or []:
+            d = it.get('diag') or {}
+            sig = {'kind': 'lsp-api-mode-mismatch', 'key': d.get('code') or it.get('err', '')[:80]}
+            if json.dumps(sig) in seen_mode or len(seen_mode) >= LSP_MAX_REPORTED:
+                continue
+            seen_mode.add(json.dumps(sig))
+            vlib.violation(ctx, {'kind': 'lsp-api-mode-mismatch',
+                                 'lsp_workspace': {'name': ws['name'] + '-replay', 'files': it['files'], 'config': it.get('config', ''), 'edit': [], 'ks': [],
+                                                   'cuts': {}, 'mid_ks': [], 'mid_cross': True, 'tail_ks': []},
+                                 'file': it.get('file'), 'diagnostic': d, 'server': it.get('before'), 'one_call_api': it.get('after'),
+                                 'what': 'input modes: the diagnostics of %s that the language server holds after loading the workspace differ from one '
+                                         'linter.Lint call over the same texts (rules.InputFromMap, same path prefix and configuration) converted with '
+                                         'convertReportToDiagnostics: %s %s %s' % (it.get('file') or 'the workspace root', d.get('code'), d.get('range'),
+                                                                                  it.get('other') or it.get('err', '')[:200])},
+                           signature=sig)
     cands = []
     for ws in shift:
         for it in ws.get('issues') or []:
@@ -628,7 +645,9 @@ def run(ctx):
             'baseline_diagnostics_by_rule': {k: sum((w.get('by_code') or {}).get(k, 0) for w in lsp_shift)
                                              for k in sorted({k for w in lsp_shift for k in (w.get('by_code') or {})})},
             'aggregate_rules': sorted({r for w in lsp_shift for r in (w.get('aggregate_rules') or [])}),
-            'issues': sum(len(w.get('issues') or []) for w in lsp_shift), 'skipped': [w['name'] for w in lsp_shift if w.get('skipped')],
+            'issues': sum(len(w.get('issues') or []) for w in lsp_shift),
+            'api_mode_diagnostics_compared': sum(w.get('mode_compared', 0) for w in lsp_shift),
+            'api_mode_issues': sum(len(w.get('mode_issues') or []) for w in lsp_shift), 'skipped': [w['name'] for w in lsp_shift if w.get('skipped')],
             'ks': LSP_KS,
             'inline_ignore_directives_naming_an_aggregate_rule': sum(
                 len(re.findall(r'regal ignore:[^\n]*(?:unresolved-import|prefer-package-imports|circular-import|impossible-not|missing-metadata)', t))
